@@ -30,7 +30,14 @@ class _Env:
             os.chdir(self.dir)
         return self
 
+    _NAME_FORMS = (".fits", ".fits", ".fit", ".FITS", ".fts", "")     # a file is named by its path, whatever its extension
+
     def path(self, *parts, as_path=False):
+        # the last component keeps its stem; its extension rotates over the forms above (per environment: flip / call count)
+        parts = list(parts)
+        if parts and parts[-1].endswith(".fits"):
+            self._n = getattr(self, "_n", 0) + 1
+            parts[-1] = parts[-1][:-5] + self._NAME_FORMS[(self._n + len(parts[-1])) % len(self._NAME_FORMS)]
         p = os.path.join(self.dir, *parts)
         return Path(p) if as_path else p
 
